@@ -34,19 +34,40 @@ def xFam (inH : Hdrs) : Bool :=
 
 theorem cookieMap_nil : cookieMap [] = [] := rfl
 
-theorem values_rewriteHeaders (inH : Hdrs) (p : Pipe) (peer inHost fwdHost k : Bytes)
-    (hH : k ≠ hHost) (hC : k ≠ hCookie ∨ p.cookies = []) :
-    values (rewriteHeaders inH p peer inHost fwdHost).2 k =
+/-- what `Rewrite` finds in the outgoing header map under an ordinary name -/
+theorem values_proxyOutHeaders (inH : Hdrs) (k : Bytes) (h1 : k ≠ hTe) (h2 : k ≠ hConnection) (h3 : k ≠ hUpgrade) :
+    values (proxyOutHeaders inH) k =
+      if k = hForwarded ∨ k = hXFFor ∨ k = hXFHost ∨ k = hXFProto then [] else
+      if isHop inH k then [] else values inH k := by
+  have hbase : ∀ (b1 b2 : Prop) [Decidable b1] [Decidable b2],
+      values (if b2 then set hUpgrade (upgradeType inH) (set hConnection b!"Upgrade"
+          (if b1 then set hTe b!"trailers" (inH.filter fun x => !isHop inH x.1) else inH.filter fun x => !isHop inH x.1))
+        else (if b1 then set hTe b!"trailers" (inH.filter fun x => !isHop inH x.1) else inH.filter fun x => !isHop inH x.1)) k =
+      if isHop inH k then [] else values inH k := by
+    intro b1 b2 _ _
+    have hf := values_filter (fun n => !isHop inH n) inH k
+    by_cases hb1 : b1 <;> by_cases hb2 : b2 <;> simp only [hb1, hb2, if_true, if_false, values_set, h1, h2, h3] <;>
+      (rw [hf]; cases isHop inH k <;> simp)
+  unfold proxyOutHeaders
+  simp only [values_del]
+  rw [hbase]
+  by_cases e1 : k = hXFProto <;> by_cases e2 : k = hXFHost <;> by_cases e3 : k = hXFFor <;>
+    by_cases e4 : k = hForwarded <;> simp [e1, e2, e3, e4]
+
+theorem values_rewriteHeaders (inH : Hdrs) (p : Pipe) (peer inHost fwdHost proto k : Bytes)
+    (hH : k ≠ hHost) (hC : k ≠ hCookie ∨ p.cookies = [])
+    (h1 : k ≠ hTe) (h2 : k ≠ hConnection) (h3 : k ≠ hUpgrade) :
+    values (rewriteHeaders inH p peer inHost fwdHost proto).2 k =
       if xFam inH && k = hXFHost then [if get inH hXFHost = [] then inHost else get inH hXFHost]
-      else if xFam inH && k = hXFProto then [if get inH hXFProto = [] then b!"http" else get inH hXFProto]
+      else if xFam inH && k = hXFProto then [if get inH hXFProto = [] then proto else get inH hXFProto]
       else if xFam inH && k = hXFFor then
         [if commaJoin (values inH hXFFor) = [] then peer else commaJoin (values inH hXFFor) ++ b!", " ++ peer]
       else if !xFam inH && k = hForwarded then
-        [if commaJoin (values inH hForwarded) = [] then forwardedElem peer inHost
-         else commaJoin (values inH hForwarded) ++ b!", " ++ forwardedElem peer inHost]
+        [if commaJoin (values inH hForwarded) = [] then forwardedElem peer inHost proto
+         else commaJoin (values inH hForwarded) ++ b!", " ++ forwardedElem peer inHost proto]
       else match firstValue (canonHeaders p.headers) k with
         | some v => [v]
-        | none => if untrustedHeaders.contains k then [] else values inH k := by
+        | none => if untrustedHeaders.contains k || isHop inH k then [] else values inH k := by
   have hout4 : ∀ (h : Hdrs), values ((cookieMap p.cookies).foldl addCookie h) k = values h k := by
     intro h
     rcases hC with hC | hC
@@ -58,25 +79,24 @@ theorem values_rewriteHeaders (inH : Hdrs) (p : Pipe) (peer inHost fwdHost k : B
     · simp [hP, values_del, hH]
     · simp [hP]
   have hbase : values ((pipeFirst p.headers).foldl (fun h kv => set kv.1 kv.2 h)
-        (inH |> del hForwarded |> del hXFFor |> del hXFHost |> del hXFProto |> del hXFMethod |> del hXFUri
-          |> del hXFPath)) k =
+        (proxyOutHeaders inH |> del hXFMethod |> del hXFUri |> del hXFPath)) k =
       match firstValue (canonHeaders p.headers) k with
       | some v => [v]
-      | none => if untrustedHeaders.contains k then [] else values inH k := by
+      | none => if untrustedHeaders.contains k || isHop inH k then [] else values inH k := by
     unfold pipeFirst
     rw [values_pipe]
     cases firstValue (canonHeaders p.headers) k with
     | some v => rfl
     | none =>
-      simp only [values_del]
+      simp only [values_del, values_proxyOutHeaders inH k h1 h2 h3]
       by_cases hu : untrustedHeaders.contains k = true
-      · simp only [hu, if_true]
-        rcases (untrusted_iff k).mp hu with h | h | h | h | h | h | h <;> subst h <;> rfl
-      · simp only [hu, Bool.false_eq_true, if_false]
+      · simp only [hu, Bool.true_or, if_true]
+        rcases (untrusted_iff k).mp hu with h | h | h | h | h | h | h <;> subst h <;> simp
+      · simp only [hu, Bool.false_eq_true, Bool.false_or]
         have hn := (not_congr (untrusted_iff k)).mp hu
         simp only [not_or] at hn
-        obtain ⟨h1, h2, h3, h4, h5, h6, h7⟩ := hn
-        simp [h1, h2, h3, h4, h5, h6, h7]
+        obtain ⟨n1, n2, n3, n4, n5, n6, n7⟩ := hn
+        simp [n1, n2, n3, n4, n5, n6, n7]
   unfold rewriteHeaders
   simp only
   have hx : (decide (commaJoin (values inH hXFFor) ≠ []) || decide (get inH hXFProto ≠ []) ||
@@ -85,50 +105,72 @@ theorem values_rewriteHeaders (inH : Hdrs) (p : Pipe) (peer inHost fwdHost k : B
   cases hX : xFam inH with
   | true =>
     simp only [if_true, Bool.true_and, Bool.not_true, Bool.false_and, values_set, decide_eq_true_eq]
-    by_cases h1 : k = hXFHost
-    · simp [h1]
-    · by_cases h2 : k = hXFProto
-      · simp [h1, h2]
-      · by_cases h3 : k = hXFFor
-        · simp [h1, h2, h3]
-        · simp only [h1, h2, h3, if_false, Bool.false_eq_true]
+    by_cases e1 : k = hXFHost
+    · simp [e1]
+    · by_cases e2 : k = hXFProto
+      · simp [e1, e2]
+      · by_cases e3 : k = hXFFor
+        · simp [e1, e2, e3]
+        · simp only [e1, e2, e3, if_false, Bool.false_eq_true]
           rw [hout4, hout3, hbase]
   | false =>
     simp only [Bool.false_eq_true, if_false, Bool.false_and, Bool.not_false, Bool.true_and, values_set,
       decide_eq_true_eq]
-    by_cases h1 : k = hForwarded
-    · simp [h1]
-    · simp only [h1, if_false]
+    by_cases e1 : k = hForwarded
+    · simp [e1]
+    · simp only [e1, if_false]
       rw [hout4, hout3, hbase]
 
-theorem values_wireHeaders (m : Bytes) (h : Hdrs) (k : Bytes) (hk : Spec.transportOwned k = false) :
+theorem values_uaLine (h : Hdrs) (k : Bytes) : values (uaLine h) k =
+    if k = hUserAgent then (match values h hUserAgent with | v :: _ => if v = [] then [] else [v] | [] => []) else [] := by
+  unfold uaLine
+  by_cases hk : k = hUserAgent
+  · subst hk
+    simp only [if_true]
+    cases hv : values h hUserAgent with
+    | nil => rfl
+    | cons v tl => by_cases e : v = [] <;> simp [e, values_cons, values_nil]
+  · have : ¬ hUserAgent = k := fun e => hk e.symm
+    simp only [hk, if_false]
+    cases hv : values h hUserAgent with
+    | nil => rfl
+    | cons v tl => by_cases e : v = [] <;> simp [e, values_cons, values_nil, this]
+
+theorem values_gzipLine (m : Bytes) (h : Hdrs) (k : Bytes) (hk : k ≠ hAcceptEncoding ∨ get h hAcceptEncoding ≠ []) :
+    values (gzipLine m h) k = [] := by
+  unfold gzipLine
+  rcases hk with hk | hk
+  · have : ¬ hAcceptEncoding = k := fun e => hk e.symm
+    split <;> simp [values_cons, values_nil, this]
+  · simp [hk, values_nil]
+
+/-- header lines written from the header map as they are -/
+theorem values_wireHeaders (m : Bytes) (h : Hdrs) (k : Bytes) (hk : Spec.transportOwned k = false)
+    (hua : k ≠ hUserAgent) (hae : k ≠ hAcceptEncoding ∨ get h hAcceptEncoding ≠ []) :
     values (wireHeaders m h) k = values h k := by
   unfold Spec.transportOwned at hk
   simp only [Bool.or_eq_false_iff, decide_eq_false_iff_not] at hk
-  obtain ⟨⟨⟨⟨⟨h1, h2⟩, h3⟩, h4⟩, h5⟩, h6⟩ := hk
+  obtain ⟨⟨⟨h1, h4⟩, h5⟩, h6⟩ := hk
   unfold wireHeaders sortHdrs
-  rw [values_sortByKey, values_append, values_append]
-  have hua : values (uaLine h) k = [] := by
-    unfold uaLine
-    split
-    · split
-      · rfl
-      · have : ¬ hUserAgent = k := fun e => h2 e.symm
-        simp [values_cons, values_nil, this]
-    · rfl
-  have hgz : values (gzipLine m h) k = [] := by
-    unfold gzipLine
-    split
-    · have : ¬ hAcceptEncoding = k := fun e => h3 e.symm
-      simp [values_cons, values_nil, this]
-    · rfl
-  rw [hua, hgz, List.nil_append, List.append_nil]
+  rw [values_sortByKey, values_append, values_append, values_uaLine, values_gzipLine m h k hae]
+  simp only [hua, if_false, List.nil_append, List.append_nil]
   rw [values_filter (fun n => !notWritten n)]
   have : notWritten k = false := by
     unfold notWritten
-    simp [h1, h2, h4, h5, h6]
+    simp [h1, hua, h4, h5, h6]
   simp [this]
 
+/-- `User-Agent` is written from its first value, and only if that is not empty -/
+theorem values_wireHeaders_ua (m : Bytes) (h : Hdrs) :
+    values (wireHeaders m h) hUserAgent =
+      (match values h hUserAgent with | v :: _ => if v = [] then [] else [v] | [] => []) := by
+  unfold wireHeaders sortHdrs
+  have hne : hUserAgent ≠ hAcceptEncoding := by decide
+  rw [values_sortByKey, values_append, values_append, values_uaLine, values_gzipLine m h _ (Or.inl hne)]
+  simp only [if_true, List.append_nil]
+  rw [values_filter (fun n => !notWritten n)]
+  have : notWritten hUserAgent = true := by decide
+  simp [this]
 
 /-! ### the client's headers as heimdall sees them -/
 
@@ -157,18 +199,36 @@ def srv (c : Case) (path raw : Bytes) : ServerReq :=
   { method := c.req.method, path := path, rawPath := raw, rawQuery := after '?' c.req.target, host := c.req.host,
     headers := canonHeaders c.req.headers }
 
+theorem xfuri_untrusted : untrustedHeaders.contains hXFUri = true := by decide
+theorem xfproto_untrusted : untrustedHeaders.contains hXFProto = true := by decide
+theorem xfhost_untrusted : untrustedHeaders.contains hXFHost = true := by decide
+theorem xffor_untrusted : untrustedHeaders.contains hXFFor = true := by decide
+theorem xfmethod_untrusted : untrustedHeaders.contains hXFMethod = true := by decide
+theorem xfpath_untrusted : untrustedHeaders.contains hXFPath = true := by decide
+theorem forwarded_untrusted : untrustedHeaders.contains hForwarded = true := by decide
+
+theorem get_xfuri (c : Case) : get (inHeaders c) hXFUri = Spec.believedUri c := by
+  unfold Spec.believedUri
+  rw [firstOr_nil, get_inHeaders_fwd c _ xfuri_untrusted]
+
+/-- the request line is in the modelled space, and so is the believed `X-Forwarded-Uri` if there is one -/
+def inSpace (c : Case) : Prop :=
+  modelledTarget c.req.target = true ∧
+    (Spec.believedUri c = [] ∨ modelledForwardedUri (Spec.believedUri c) = true)
+
 theorem forward_forwarded (c : Case) (tls : Bool) (dial : Bytes) (up : UpReq)
     (h : forward c = .forwarded tls dial up) :
-    ∃ path raw t, modelledTarget c.req.target = true ∧
+    ∃ path raw t, inSpace c ∧
       setPath (before '?' c.req.target) = some (path, raw) ∧
-      ruleTarget c.rule (extractURL (inHeaders c) (srv c path raw)) = some t ∧
+      ruleTarget c.rule (extractURL c.req.tls (inHeaders c) (srv c path raw)) = some t ∧
       (t.scheme = b!"http" ∨ t.scheme = b!"https") ∧
       tls = decide (t.scheme = b!"https") ∧ dial = t.host ∧
       up = { method := extractMethod (inHeaders c) (srv c path raw), path := orSlash t.escapedPath,
              query := t.rawQuery,
-             host := (rewriteHeaders (inHeaders c) c.pipe c.req.peer c.req.host c.rule.host).1,
+             host := (rewriteHeaders (inHeaders c) c.pipe c.req.peer c.req.host c.rule.host
+               (listenerProto c.req.tls)).1,
              headers := wireHeaders (extractMethod (inHeaders c) (srv c path raw))
-               (rewriteHeaders (inHeaders c) c.pipe c.req.peer c.req.host c.rule.host).2,
+               (rewriteHeaders (inHeaders c) c.pipe c.req.peer c.req.host c.rule.host (listenerProto c.req.tls)).2,
              body := c.req.body } := by
   unfold forward at h
   by_cases hm : modelledTarget c.req.target = true
@@ -181,7 +241,16 @@ theorem forward_forwarded (c : Case) (tls : Bool) (dial : Bytes) (up : UpReq)
       simp only [hs, Option.map_some] at h
       split at h
       · exact Outcome.noConfusion h
-      · cases ht : ruleTarget c.rule (extractURL (inHeaders c) (srv c path raw)) with
+      · next hun =>
+        have hsp : Spec.believedUri c = [] ∨ modelledForwardedUri (Spec.believedUri c) = true := by
+          have hg := get_xfuri c
+          unfold inHeaders at hg
+          rw [hg] at hun
+          by_cases e : Spec.believedUri c = []
+          · exact Or.inl e
+          · right
+            simpa [e] using hun
+        cases ht : ruleTarget c.rule (extractURL c.req.tls (inHeaders c) (srv c path raw)) with
         | none =>
           simp only [inHeaders, srv] at ht
           simp [ht] at h
@@ -193,7 +262,7 @@ theorem forward_forwarded (c : Case) (tls : Bool) (dial : Bytes) (up : UpReq)
           · next hsch =>
             simp only [Outcome.forwarded.injEq] at h
             obtain ⟨h1, h2, h3⟩ := h
-            refine ⟨path, raw, t, hm, rfl, ?_, ?_, h1.symm, h2.symm, h3.symm⟩
+            refine ⟨path, raw, t, ⟨hm, hsp⟩, rfl, ?_, ?_, h1.symm, h2.symm, h3.symm⟩
             · simp only [inHeaders, srv]; exact ht
             · simp only [ne_eq, Bool.and_eq_true, decide_eq_true_eq, not_and, Decidable.not_not] at hsch
               by_cases hh : t.scheme = b!"http"
@@ -215,7 +284,6 @@ theorem ruleTarget_host (r : RuleCfg) (v t : Url) (h : ruleTarget r v = some t) 
   · simp only [Option.some.injEq] at h; rw [← h]; exact hc _
   · simp only [Option.some.injEq] at h; rw [← h]; exact hc _
 
-
 /-! ### the URL -/
 
 theorem modelledTarget_head (t : Bytes) (h : modelledTarget t = true) : t.head? = some '/' := by
@@ -231,43 +299,93 @@ theorem before_head (t : Bytes) (h : t.head? = some '/') : (before '?' t).head? 
     subst h
     simp [before, List.takeWhile_cons]
 
-theorem xfuri_untrusted : untrustedHeaders.contains hXFUri = true := by decide
-theorem xfproto_untrusted : untrustedHeaders.contains hXFProto = true := by decide
-theorem xfhost_untrusted : untrustedHeaders.contains hXFHost = true := by decide
-theorem xffor_untrusted : untrustedHeaders.contains hXFFor = true := by decide
-theorem xfmethod_untrusted : untrustedHeaders.contains hXFMethod = true := by decide
-theorem xfpath_untrusted : untrustedHeaders.contains hXFPath = true := by decide
-theorem forwarded_untrusted : untrustedHeaders.contains hForwarded = true := by decide
+theorem modelledForwardedUri_head (v : Bytes) (h : modelledForwardedUri v = true) : v.head? = some '/' := by
+  unfold modelledForwardedUri at h
+  simp only [Bool.and_eq_true] at h
+  exact modelledTarget_head v h.1.1
 
-theorem plain_get (c : Case) (hp : Spec.plainUrl c = true) : get (inHeaders c) hXFUri = [] := by
-  rw [get_inHeaders_fwd c _ xfuri_untrusted]
-  unfold Spec.plainUrl at hp
-  simp only [decide_eq_true_eq] at hp
-  rw [hp]; rfl
+theorem setPath_isSome (p : Bytes) : (setPath p).isSome = (pathUnescapeL p).isSome := by
+  unfold setPath
+  cases pathUnescapeL p <;> rfl
 
-/-- without a believed `X-Forwarded-Uri` the request view is the URL of the request line -/
-theorem extractURL_plain (c : Case) (path raw : Bytes) (hp : Spec.plainUrl c = true)
-    (hm : modelledTarget c.req.target = true)
+/-- The request view: the URL of the request line, or — path, and query if it has one — the `X-Forwarded-Uri` of a
+trusted proxy; the path in the received spelling with only the forbidden octets encoded. -/
+theorem extractURL_view (c : Case) (path raw : Bytes) (hsp : inSpace c)
     (hset : setPath (before '?' c.req.target) = some (path, raw)) :
-    pathUnescapeL (Spec.origRawPath c) = some path ∧
-    extractURL (inHeaders c) (srv c path raw) =
-      { scheme := Spec.origScheme c, host := (extractURL (inHeaders c) (srv c path raw)).host,
-        path := path, rawPath := normPath (Spec.origRawPath c), rawQuery := Spec.origQuery c } := by
+    ∃ d, pathUnescapeL (Spec.origRawPath c) = some d ∧ (Spec.origRawPath c).head? = some '/' ∧
+      extractURL c.req.tls (inHeaders c) (srv c path raw) =
+        { scheme := Spec.origScheme c, host := (extractURL c.req.tls (inHeaders c) (srv c path raw)).host,
+          path := d, rawPath := escapeInvalid (Spec.origRawPath c), rawQuery := Spec.origQuery c } := by
+  obtain ⟨hm, hfu⟩ := hsp
   have hhead := before_head _ (modelledTarget_head _ hm)
-  obtain ⟨hdec, hesc⟩ := escapedPath_setPath _ path raw hhead hset
-  refine ⟨hdec, ?_⟩
-  have hx := plain_get c hp
-  have hsch : Spec.origScheme c = if get (inHeaders c) hXFProto ≠ [] then get (inHeaders c) hXFProto else b!"http" := by
+  obtain ⟨hdec, hcp⟩ := clientPath_setPath _ path raw hhead hset
+  have hx := get_xfuri c
+  have hsch : Spec.origScheme c =
+      if get (inHeaders c) hXFProto ≠ [] then get (inHeaders c) hXFProto else listenerProto c.req.tls := by
     unfold Spec.origScheme
     rw [firstOr_eq, get_inHeaders_fwd c _ xfproto_untrusted]
-  unfold extractURL
-  simp only [hx, if_true, Option.map_none, Option.getD_none]
-  simp only [srv, hesc]
-  rw [hsch]
-  have : (pathUnescapeL (normPath (before '?' c.req.target))).getD [] = path := by
-    rw [normPath_decodes _ path hdec]; rfl
-  simp only [this]
-  rfl
+  -- the request line counts
+  have plain : Spec.usesForwardedUri c = false →
+      (get (inHeaders c) hXFUri = [] ∨ setPath (before '?' (get (inHeaders c) hXFUri)) = none) →
+      ∃ d, pathUnescapeL (Spec.origRawPath c) = some d ∧ (Spec.origRawPath c).head? = some '/' ∧
+      extractURL c.req.tls (inHeaders c) (srv c path raw) =
+        { scheme := Spec.origScheme c, host := (extractURL c.req.tls (inHeaders c) (srv c path raw)).host,
+          path := d, rawPath := escapeInvalid (Spec.origRawPath c), rawQuery := Spec.origQuery c } := by
+    intro hu hnone
+    have ho : Spec.origTarget c = c.req.target := by unfold Spec.origTarget; simp [hu]
+    have hq : Spec.origQuery c = after '?' c.req.target := by unfold Spec.origQuery; rw [ho]; simp
+    refine ⟨path, by unfold Spec.origRawPath; rw [ho]; exact hdec,
+      by unfold Spec.origRawPath; rw [ho]; exact hhead, ?_⟩
+    have hparsed : (if get (inHeaders c) hXFUri = [] then (none : Option (Bytes × Bytes)) else
+        (setPath (before '?' (get (inHeaders c) hXFUri))).map fun pr =>
+          (clientPath pr.1 pr.2, after '?' (get (inHeaders c) hXFUri))) = none := by
+      rcases hnone with e | e
+      · simp [e]
+      · simp [e]
+    unfold extractURL
+    simp only [hparsed, Option.map_none, Option.getD_none, if_true]
+    simp only [srv, hcp]
+    rw [hsch, hq]
+    unfold Spec.origRawPath
+    rw [ho]
+    have : (pathUnescapeL (escapeInvalid (before '?' c.req.target))).getD [] = path := by
+      rw [escapeInvalid_decodes _ path hdec]; rfl
+    simp only [this]
+  by_cases hv : Spec.believedUri c = []
+  · exact plain (by unfold Spec.usesForwardedUri; simp [hv]) (Or.inl (by rw [hx]; exact hv))
+  · have hmf : modelledForwardedUri (Spec.believedUri c) = true := by
+      rcases hfu with e | e
+      · exact absurd e hv
+      · exact e
+    have hvh := before_head _ (modelledForwardedUri_head _ hmf)
+    cases hs2 : setPath (before '?' (Spec.believedUri c)) with
+    | none =>
+      have hdn : (pathUnescapeL (before '?' (Spec.believedUri c))).isSome = false := by
+        rw [← setPath_isSome, hs2]; rfl
+      exact plain (by unfold Spec.usesForwardedUri; simp [hdn]) (Or.inr (by rw [hx]; exact hs2))
+    | some pr =>
+      obtain ⟨p2, r2⟩ := pr
+      obtain ⟨hdec2, hcp2⟩ := clientPath_setPath _ p2 r2 hvh hs2
+      have hu : Spec.usesForwardedUri c = true := by
+        unfold Spec.usesForwardedUri
+        simp [hv, hdec2]
+      have ho : Spec.origTarget c = Spec.believedUri c := by unfold Spec.origTarget; simp [hu]
+      have hne : escapeInvalid (before '?' (Spec.believedUri c)) ≠ [] := by
+        apply escapeInvalid_ne_nil
+        intro e
+        rw [e] at hvh
+        simp at hvh
+      refine ⟨p2, by unfold Spec.origRawPath; rw [ho]; exact hdec2,
+        by unfold Spec.origRawPath; rw [ho]; exact hvh, ?_⟩
+      unfold extractURL
+      simp only [hx, hv, if_false, hs2, Option.map_some, Option.getD_some, hcp2, hne]
+      simp only [srv]
+      rw [hsch]
+      have hdd : (pathUnescapeL (escapeInvalid (before '?' (Spec.believedUri c)))).getD [] = p2 := by
+        rw [escapeInvalid_decodes _ p2 hdec2]; rfl
+      unfold Spec.origRawPath Spec.origQuery
+      rw [ho, hdd]
+      by_cases hq : after '?' (Spec.believedUri c) = [] <;> simp [hq]
 
 theorem createURL_scheme (r : RuleCfg) (v : Url) : (createURL r v).scheme =
     match r.rewrite with
@@ -308,8 +426,8 @@ theorem ruleTarget_some (r : RuleCfg) (v t : Url) (h : ruleTarget r v = some t) 
   · simp only [Option.some.injEq] at h
     exact ⟨by rw [← h]; simp, fun e => by simp at e⟩
 
-theorem seenPath_off (c : Case) (h : c.rule.slashes ≠ .on) : Spec.seenPath c = normPath (Spec.origRawPath c) := by
-  unfold Spec.seenPath normPath
+theorem seenPath_off (c : Case) (h : c.rule.slashes ≠ .on) : Spec.seenPath c = escapeInvalid (Spec.origRawPath c) := by
+  unfold Spec.seenPath
   simp [h]
 
 theorem seenPath_on (c : Case) (h : c.rule.slashes = .on) :
@@ -318,22 +436,19 @@ theorem seenPath_on (c : Case) (h : c.rule.slashes = .on) :
   simp [h]
 
 /-- the spelling of the original path `Rewrite` starts from -/
-theorem seen_escapedPath (c : Case) (path : Bytes) (hm : modelledTarget c.req.target = true)
+theorem seen_escapedPath (c : Case) (path : Bytes) (hhead : (Spec.origRawPath c).head? = some '/')
     (hdec : pathUnescapeL (Spec.origRawPath c) = some path) :
-    escapedPath path (if c.rule.slashes = .on then [] else normPath (Spec.origRawPath c)) = Spec.seenPath c := by
-  have hhead := before_head _ (modelledTarget_head _ hm)
+    escapedPath path (if c.rule.slashes = .on then [] else escapeInvalid (Spec.origRawPath c)) = Spec.seenPath c := by
   have hne : Spec.origRawPath c ≠ [] := by
     intro e
-    unfold Spec.origRawPath at e
     rw [e] at hhead
     simp at hhead
   by_cases hon : c.rule.slashes = .on
   · simp only [hon, if_true]
     rw [seenPath_on c hon, hdec]
     have hstar : path ≠ ['*'] := by
-      unfold Spec.origRawPath at hdec
-      cases hb : before '?' c.req.target with
-      | nil => rw [hb] at hhead; simp at hhead
+      cases hb : Spec.origRawPath c with
+      | nil => exact absurd hb hne
       | cons ch r =>
         rw [hb] at hhead hdec
         simp only [List.head?_cons, Option.some.injEq] at hhead
@@ -342,13 +457,13 @@ theorem seen_escapedPath (c : Case) (path : Bytes) (hm : modelledTarget c.req.ta
     exact escapedPath_nil path hstar
   · simp only [hon, if_false]
     rw [seenPath_off c hon]
-    exact escapedPath_keep _ _ (normPath_ne_nil _ path hne hdec) (normPath_valid _) (normPath_decodes _ path hdec)
+    exact escapedPath_keep _ _ (escapeInvalid_ne_nil _ hne) (escapeInvalid_valid _) (escapeInvalid_decodes _ path hdec)
 
 theorem seenPath_decodes (c : Case) (path : Bytes) (hdec : pathUnescapeL (Spec.origRawPath c) = some path) :
     pathUnescapeL (Spec.seenPath c) = some path := by
   by_cases hon : c.rule.slashes = .on
   · rw [seenPath_on c hon, hdec]; exact pathUnescapeL_escapePath path
-  · rw [seenPath_off c hon]; exact normPath_decodes _ path hdec
+  · rw [seenPath_off c hon]; exact escapeInvalid_decodes _ path hdec
 
 theorem orSlash_decodes (a b : Bytes) (h : pathUnescapeL a = pathUnescapeL b) (ha : (pathUnescapeL a).isSome = true) :
     pathUnescapeL (orSlash a) = pathUnescapeL (orSlash b) ∧ (pathUnescapeL (orSlash a)).isSome = true := by
@@ -365,26 +480,25 @@ theorem orSlash_decodes (a b : Bytes) (h : pathUnescapeL a = pathUnescapeL b) (h
     simp only [hae, hbe, if_false]
     exact ⟨h, ha⟩
 
-
-/-- `forward` on a well-formed request line without a believed `X-Forwarded-Uri` -/
-theorem forward_plain (c : Case) (hw : Spec.wellFormed c = true) (hp : Spec.plainUrl c = true) :
-    ∃ path raw, setPath (before '?' c.req.target) = some (path, raw) ∧
+/-- `forward` on a request in the modelled space whose path can be decoded -/
+theorem forward_wellFormed (c : Case) (hw : Spec.wellFormed c = true) :
+    ∃ path raw, inSpace c ∧ setPath (before '?' c.req.target) = some (path, raw) ∧
       forward c =
-        match ruleTarget c.rule (extractURL (inHeaders c) (srv c path raw)) with
+        match ruleTarget c.rule (extractURL c.req.tls (inHeaders c) (srv c path raw)) with
         | none => .rejected 400
         | some t =>
           if t.scheme ≠ b!"http" && t.scheme ≠ b!"https" then .rejected 502 else
           .forwarded (t.scheme = b!"https") t.host
             { method := extractMethod (inHeaders c) (srv c path raw), path := orSlash t.escapedPath,
               query := t.rawQuery,
-              host := (rewriteHeaders (inHeaders c) c.pipe c.req.peer c.req.host c.rule.host).1,
+              host := (rewriteHeaders (inHeaders c) c.pipe c.req.peer c.req.host c.rule.host
+                (listenerProto c.req.tls)).1,
               headers := wireHeaders (extractMethod (inHeaders c) (srv c path raw))
-                (rewriteHeaders (inHeaders c) c.pipe c.req.peer c.req.host c.rule.host).2,
+                (rewriteHeaders (inHeaders c) c.pipe c.req.peer c.req.host c.rule.host (listenerProto c.req.tls)).2,
               body := c.req.body } := by
   unfold Spec.wellFormed at hw
-  simp only [Bool.and_eq_true] at hw
-  obtain ⟨hm, hd⟩ := hw
-  unfold Spec.origRawPath at hd
+  simp only [Bool.and_eq_true, Bool.or_eq_true, decide_eq_true_eq] at hw
+  obtain ⟨⟨hm, hd⟩, hfu⟩ := hw
   cases hdec : pathUnescapeL (before '?' c.req.target) with
   | none => simp [hdec] at hd
   | some d =>
@@ -392,45 +506,153 @@ theorem forward_plain (c : Case) (hw : Spec.wellFormed c = true) (hp : Spec.plai
         some (d, if escapePath d = before '?' c.req.target then [] else before '?' c.req.target) := by
       unfold setPath
       rw [hdec]; rfl
-    refine ⟨_, _, hset, ?_⟩
-    have hx := plain_get c hp
+    refine ⟨_, _, ⟨hm, hfu⟩, hset, ?_⟩
+    have hx := get_xfuri c
     unfold forward
     simp only [hm, Bool.not_true, Bool.false_eq_true, if_false]
     unfold serverParse
     simp only [hset, Option.map_some]
-    have hx' : get (trustStrip (isTrusted c.trusted c.req.peer) (canonHeaders c.req.headers)) hXFUri = [] := hx
-    simp only [hx', ne_eq, not_true_eq_false, decide_false, Bool.false_and, Bool.false_eq_true, if_false]
+    have hx' : get (trustStrip (isTrusted c.trusted c.req.peer) (canonHeaders c.req.headers)) hXFUri =
+        Spec.believedUri c := hx
+    have hnot : (decide (Spec.believedUri c ≠ []) && !modelledForwardedUri (Spec.believedUri c)) = false := by
+      rcases hfu with e | e
+      · simp [e]
+      · simp [e]
+    simp only [hx', hnot, Bool.false_eq_true, if_false]
     rfl
 
-
-/-- what the rule's URL looks like when no trusted `X-Forwarded-Uri` is involved -/
-theorem target_path (c : Case) (tls : Bool) (dial : Bytes) (up : UpReq) (h : forward c = .forwarded tls dial up)
-    (hp : Spec.plainUrl c = true) :
-    ∃ path u, pathUnescapeL (Spec.origRawPath c) = some path ∧ u.escapedPath = Spec.seenPath c ∧
-      u.rawPath = (if c.rule.slashes = .on then [] else normPath (Spec.origRawPath c)) ∧
+/-- the rule's URL in terms of the original request -/
+theorem target_path (c : Case) (tls : Bool) (dial : Bytes) (up : UpReq) (h : forward c = .forwarded tls dial up) :
+    ∃ path u, pathUnescapeL (Spec.origRawPath c) = some path ∧ (Spec.origRawPath c).head? = some '/' ∧
+      u.escapedPath = Spec.seenPath c ∧
+      u.rawPath = (if c.rule.slashes = .on then [] else escapeInvalid (Spec.origRawPath c)) ∧
+      (c.rule.slashes = .off → containsEncodedSlashL (Spec.origRawPath c) = false) ∧
       up.path = orSlash (match c.rule.rewrite with
         | some rw => (rw.apply u).escapedPath
         | none => Spec.seenPath c) := by
-  obtain ⟨path, raw, t, hm, hset, ht, _, _, _, hup⟩ := forward_forwarded c tls dial up h
-  obtain ⟨hdec, hurl⟩ := extractURL_plain c path raw hp hm hset
-  obtain ⟨hte, _⟩ := ruleTarget_some _ _ _ ht
-  rw [hurl] at hte
-  refine ⟨path, ⟨Spec.origScheme c, c.rule.host, path,
-      if c.rule.slashes = .on then [] else normPath (Spec.origRawPath c), Spec.origQuery c⟩,
-      hdec, seen_escapedPath c path hm hdec, rfl, ?_⟩
-  rw [hup, hte, createURL_escapedPath]
-  cases c.rule.rewrite with
-  | none => simp only; rw [seen_escapedPath c path hm hdec]
-  | some rw => rfl
+  obtain ⟨path, raw, t, hsp, hset, ht, _, _, _, hup⟩ := forward_forwarded c tls dial up h
+  obtain ⟨d, hdec, hhead, hurl⟩ := extractURL_view c path raw hsp hset
+  obtain ⟨hte, hoff⟩ := ruleTarget_some _ _ _ ht
+  rw [hurl] at hte hoff
+  refine ⟨d, ⟨Spec.origScheme c, c.rule.host, d,
+      if c.rule.slashes = .on then [] else escapeInvalid (Spec.origRawPath c), Spec.origQuery c⟩,
+      hdec, hhead, seen_escapedPath c d hhead hdec, rfl, ?_, ?_⟩
+  · intro ho
+    have := hoff ho
+    simp only at this
+    rw [containsEncodedSlashL_escapeInvalid] at this
+    exact this
+  · rw [hup, hte, createURL_escapedPath]
+    cases c.rule.rewrite with
+    | none => simp only; rw [seen_escapedPath c d hhead hdec]
+    | some rw => rfl
 
-
-theorem target_query (c : Case) (tls : Bool) (dial : Bytes) (up : UpReq) (h : forward c = .forwarded tls dial up)
-    (hp : Spec.plainUrl c = true) : up.query = removeParams (Spec.stripNames c) (Spec.origQuery c) := by
-  obtain ⟨path, raw, t, hm, hset, ht, _, _, _, hup⟩ := forward_forwarded c tls dial up h
-  obtain ⟨_, hurl⟩ := extractURL_plain c path raw hp hm hset
+theorem target_query (c : Case) (tls : Bool) (dial : Bytes) (up : UpReq) (h : forward c = .forwarded tls dial up) :
+    up.query = removeParams (Spec.stripNames c) (Spec.origQuery c) := by
+  obtain ⟨path, raw, t, hsp, hset, ht, _, _, _, hup⟩ := forward_forwarded c tls dial up h
+  obtain ⟨_, _, _, hurl⟩ := extractURL_view c path raw hsp hset
   obtain ⟨hte, _⟩ := ruleTarget_some _ _ _ ht
   rw [hup, hte, createURL_query, hurl]
   rfl
+
+
+/-! ### specification vocabulary and the model's header map -/
+
+theorem isHop_inHeaders (c : Case) (k : Bytes) : isHop (inHeaders c) k = Spec.hopByHop c k := by
+  unfold isHop Spec.hopByHop isHop connectionNamed
+  rw [values_inHeaders_other c hConnection (by decide)]
+
+theorem firstValue_pipe (c : Case) (k : Bytes) :
+    firstValue (canonHeaders c.pipe.headers) k = (Spec.pipeValues c k).head? := by
+  rw [firstValue_canonHeaders]
+  unfold Spec.pipeValues
+  rw [List.head?_map]
+
+/-- the value if there is one, else the given lines -/
+def oneOr (o : Option Bytes) (d : List Bytes) : List Bytes :=
+  match o with
+  | some v => [v]
+  | none => d
+
+/-- what the model's outgoing header map holds under an ordinary name -/
+theorem model_values (c : Case) (k : Bytes) (hH : k ≠ hHost) (hC : k ≠ hCookie ∨ c.pipe.cookies = [])
+    (h1 : k ≠ hTe) (h2 : k ≠ hConnection) (h3 : k ≠ hUpgrade) (hcn : k ≠ Spec.continuedName c) :
+    values (rewriteHeaders (inHeaders c) c.pipe c.req.peer c.req.host c.rule.host (listenerProto c.req.tls)).2 k =
+      if Spec.xFamily c && k = hXFHost then [Spec.firstOr (Spec.believed c hXFHost) c.req.host]
+      else if Spec.xFamily c && k = hXFProto then [Spec.firstOr (Spec.believed c hXFProto) (listenerProto c.req.tls)]
+      else oneOr (Spec.pipeValues c k).head? (Spec.endToEnd c k) := by
+  have hxf : xFam (inHeaders c) = Spec.xFamily c := by
+    unfold xFam Spec.xFamily Spec.priorFor
+    rw [values_inHeaders_fwd c _ xffor_untrusted, firstOr_nil, firstOr_nil,
+      get_inHeaders_fwd c _ xfproto_untrusted, get_inHeaders_fwd c _ xfhost_untrusted]
+  rw [values_rewriteHeaders _ _ _ _ _ _ _ hH hC h1 h2 h3, hxf, firstValue_pipe, isHop_inHeaders]
+  unfold Spec.continuedName at hcn
+  have hend : (if (untrustedHeaders.contains k || Spec.hopByHop c k) = true then [] else values (inHeaders c) k) =
+      Spec.endToEnd c k := by
+    unfold Spec.endToEnd
+    cases hu : untrustedHeaders.contains k with
+    | true => cases Spec.hopByHop c k <;> rfl
+    | false =>
+      rw [values_inHeaders_other c k hu]
+      cases Spec.hopByHop c k <;> rfl
+  by_cases hX : Spec.xFamily c = true
+  · simp only [hX, if_true] at hcn
+    simp only [hX, Bool.true_and, Bool.not_true, Bool.false_and, Bool.false_eq_true, if_false, decide_eq_true_eq]
+    by_cases e1 : k = hXFHost
+    · subst e1
+      simp only [if_true]
+      rw [firstOr_eq, get_inHeaders_fwd c _ xfhost_untrusted]
+      by_cases hg : (Spec.believed c hXFHost).head?.getD [] = [] <;> simp [hg]
+    · by_cases e2 : k = hXFProto
+      · subst e2
+        simp only [e1, if_false, if_true]
+        rw [firstOr_eq, get_inHeaders_fwd c _ xfproto_untrusted]
+        by_cases hg : (Spec.believed c hXFProto).head?.getD [] = [] <;> simp [hg]
+      · simp only [e1, e2, hcn, if_false]
+        unfold oneOr
+        cases (Spec.pipeValues c k).head? with
+        | some v => rfl
+        | none => exact hend
+  · have hX' : Spec.xFamily c = false := by simpa using hX
+    simp only [hX', Bool.false_eq_true, if_false] at hcn
+    simp only [hX', Bool.false_and, Bool.false_eq_true, if_false, Bool.not_false, Bool.true_and, decide_eq_true_eq,
+      hcn]
+    unfold oneOr
+    cases (Spec.pipeValues c k).head? with
+    | some v => rfl
+    | none => exact hend
+
+
+theorem single_valued (c : Case) (h : Spec.pipeSingleValued c = true) (k : Bytes) :
+    Spec.repeatedPipeName c k = false := by
+  unfold Spec.repeatedPipeName
+  simp only [ge_iff_le, decide_eq_false_iff_not, Nat.not_le]
+  unfold Spec.pipeSingleValued at h
+  rw [List.all_eq_true] at h
+  cases hf : c.pipe.headers.filter (fun x => canonicalKey x.1 = k) with
+  | nil => simp [Spec.pipeValues, hf]
+  | cons x rest =>
+    have hx : x ∈ c.pipe.headers.filter (fun x => canonicalKey x.1 = k) := by rw [hf]; simp
+    have hxk : canonicalKey x.1 = k := by simpa using (List.mem_filter.mp hx).2
+    have := h x (List.mem_filter.mp hx).1
+    rw [hxk] at this
+    simp only [decide_eq_true_eq] at this
+    omega
+
+theorem avoids_continued (c : Case) (h : Spec.pipeAvoidsContinued c = true) (k : Bytes) :
+    Spec.pipeContinued c k = false := by
+  by_cases hc : Spec.continued c k = true
+  · have hu : k ∈ untrustedHeaders := by
+      unfold Spec.continued at hc
+      cases hx : Spec.xFamily c
+      · simp only [hx, Bool.false_eq_true, if_false, decide_eq_true_eq] at hc
+        subst hc; decide
+      · simp only [hx, if_true, Bool.or_eq_true, decide_eq_true_eq] at hc
+        rcases hc with (e | e) | e <;> subst e <;> decide
+    unfold Spec.pipeAvoidsContinued at h
+    rw [List.all_eq_true] at h
+    simpa using h k hu
+  · simp [Spec.pipeContinued, hc]
 
 
 end Heimdall.ProxyFwd
